@@ -265,7 +265,7 @@ class Create:
     @staticmethod
     def pick(rng, S):
         kind = rng.choice(['cores', 'cores', 'cores_m', 'cores_m', 'random', 'random_m', 'randn', 'svd', 'svd', 'svd_np',
-                           'svd_shape', 'svd_m', 'ones', 'zeros', 'zeros_m', 'ones_m', 'eye', 'xfun', 'rank1', 'meshgrid'])
+                           'svd_shape', 'svd_m', 'svd_m', 'svd_m_np', 'ones', 'zeros', 'zeros_m', 'ones_m', 'eye', 'xfun', 'rank1', 'meshgrid'])
         dt = pick_dt(rng)
         # reuse an existing shape half of the time so that binary operations find partners
         N = None
@@ -284,7 +284,10 @@ class Create:
             M = [rng.randint(1, 4) for _ in range(d)] if rng.random() < 0.5 else list(N)
         R = rranks(rng, d)
         p = {'kind': kind, 'N': N, 'M': M, 'R': R, 'dt': dt, 'vseed': rng.getrandbits(31),
-             'eps': rng.choice([1e-12, 1e-8, 1e-3, 0.1])}
+             'eps': rng.choice([1e-12, 1e-8, 1e-3, 0.1]),
+             # layout of the dense source handed to the constructor together with an explicit shape: the constructor
+             # promises to reshape first, so any layout with the right number of entries is legal
+             'layout': rng.choice(['natural', 'natural', 'flat', 'matrix', 'unit_axis'])}
         return [], p
 
     @staticmethod
@@ -309,10 +312,21 @@ class Create:
             if kind == 'svd_np':
                 return TT(full.numpy(), eps=p['eps'])
             if kind == 'svd_shape':
-                return TT(full.reshape(-1), shape=list(N), eps=p['eps'])
+                lay = p.get('layout', 'natural')
+                src = full.reshape(-1) if lay in ('flat', 'natural') else full.reshape(list(full.shape) + [1]) if lay == 'unit_axis' else full.reshape(N[0], -1)
+                return TT(src, shape=list(N), eps=p['eps'])
             return TT(full, eps=p['eps'])
-        if kind == 'svd_m':
+        if kind in ('svd_m', 'svd_m_np'):
             full = gen.dense_from_cores(gen.rand_cores(N, R, dt, g, M))
+            lay = p.get('layout', 'natural')
+            if lay == 'flat':
+                full = full.reshape(-1)
+            elif lay == 'matrix':
+                full = full.reshape(int(np.prod(M)), int(np.prod(N)))
+            elif lay == 'unit_axis':
+                full = full.reshape(list(full.shape) + [1])
+            if kind == 'svd_m_np':
+                full = full.numpy()
             return TT(full, [(m, n) for m, n in zip(M, N)], eps=p['eps'])
         if kind == 'ones':
             return torchtt.ones(N, dtype=tdt)
